@@ -14,6 +14,11 @@ import math
 import numpy as np
 import torch
 
+# imported here (not lazily) so that the runner's parent process holds the modules before it forks one process per shard
+import deepali.modules  # noqa: F401
+import deepali.spatial  # noqa: F401
+import deepali.spatial.generic  # noqa: F401
+
 from mc.core import Acc, exc_text, guarded, h64, tensor_bytes
 from ref import grid as rg
 from ref import transform as rt
@@ -261,8 +266,15 @@ def configs(tier: str, seed: int):
                             if tier == "quick":
                                 # deterministic thinning: every value of every factor and every pair (grid, pm),
                                 # (N, kind) is kept for every class; the full product is the thorough tier.
-                                # Composites with >= 3 members and the explicit 3-D Euler orders keep every 6th entry.
-                                mod = 6 if (len(desc.get("members", [])) >= 3 or (desc["cls"] == "EulerRotation" and desc.get("order"))) else 3
+                                # The explicit 3-D Euler orders keep every 6th, composites with >= 3 members every 9th and the
+                                # generic transform every 4th entry.
+                                mod = 3
+                                if desc["cls"] == "EulerRotation" and desc.get("order"):
+                                    mod = 6
+                                elif len(desc.get("members", [])) >= 3:
+                                    mod = 9
+                                elif desc["cls"] == "Generic":
+                                    mod = 4
                                 if (gi + (0 if N == 1 else 1) + (0 if kind == "param" else 1) + pms.index(pm) + ci) % mod != 0:
                                     continue
                             out.append({"D": D, "desc": desc, "grid": g, "N": N, "kind": kind, "pm": pm, "seed": seed})
@@ -279,7 +291,7 @@ def bounds(tier):
         "groups": [1, 2],
         "parameter_kinds": ["param", "buffer"],
         "parameter_menu": ["default", "const (dense)", "small", "large"],
-        "views": {"call": 4, "disp/flow": 9, "tensor/matrix": 2, "points": 16 + 12 + 1 if tier == "quick" else 65, "pointset": 4, "image": 17},
+        "views": {"call": 4, "disp/flow": 9, "tensor/matrix": 2, "points": 16 + 9 + 1 if tier == "quick" else 65, "pointset": 4, "image": 11 if tier == "quick" else 17},
         "depth": 1,
     }
 
@@ -775,7 +787,7 @@ def run_config(spec, acc: Acc = None, only=None):
             for a_out in AXES:
                 point_form("points", f"axes={a_in}>{a_out}/grids=self", lambda x, a=a_in, b_=a_out: t.points(x, axes=a, to_axes=b_), rgrid, a_in, rgrid, a_out)
         extra = [("dom", None), (None, "dom"), ("size", "domac")]
-        pairs = list(itertools.product(AXES, AXES)) if thorough else [(GRID, WORLD), (WORLD, CUBE), (CORNERS, GRID), (CUBE, CORNERS)]
+        pairs = list(itertools.product(AXES, AXES)) if thorough else [(GRID, WORLD), (WORLD, CUBE), (CORNERS, GRID)]
         for gi_, go_ in extra:
             rin = others[gi_] if gi_ else rgrid
             rout = others[go_] if go_ else rin
@@ -809,6 +821,9 @@ def run_config(spec, acc: Acc = None, only=None):
     if want("image"):
         names = ("own", "size", "dom", "ac")
         combos = [(None, None)] + [(a, b_) for a in names for b_ in names]
+        if spec.get("tier") != "thorough":
+            # quick tier: every target with the own source, every source with the own target, and one diagonal
+            combos = [c_ for c_ in combos if c_[0] in (None, "own") or c_[1] == "own" or c_ in (("dom", "dom"), ("size", "ac"), ("ac", "dom"))]
         for tg, sg in combos:
             rt_g = others[tg or "own"]
             rs_g = others[sg or (tg or "own")]
